@@ -156,6 +156,8 @@ func runC02(p *P, r *R) {
 	})
 
 	walkerRecyclesHead(p, r, "R02.10")
+	// R02.12 a buffer that mixes shared-memory and heap slices gives its shared-memory slices back (shared with C09 R09.13 / R09.12)
+	borrow(p, r, "C09", runC09, map[string]string{"R09.13": "R02.12", "R09.12": "R02.12"}, nil)
 	// R02.9 a slot that re-enters the free chain carries no stale link (shared with C01 R01.5): the chain must end at the tail
 	borrow(p, r, "C01", runC01, map[string]string{"R01.5": "R02.9", "R01.8": "R02.9", "R01.14": "R02.9"}, nil)
 
